@@ -1,0 +1,51 @@
+// SPDX-FileCopyrightText: 2026 The Pion community <https://pion.ly>
+// SPDX-License-Identifier: MIT
+
+//go:build verif
+
+package verifhooks
+
+import (
+	"github.com/pion/interceptor/internal/cc"
+	"github.com/pion/interceptor/internal/rtpbuffer"
+	"github.com/pion/rtp"
+)
+
+// C12FeedbackAdapter re-exports cc.FeedbackAdapter (property C12: container sizes).
+type C12FeedbackAdapter = cc.FeedbackAdapter
+
+// C12NewFeedbackAdapter re-exports cc.NewFeedbackAdapter.
+func C12NewFeedbackAdapter() *C12FeedbackAdapter { return cc.NewFeedbackAdapter() }
+
+// C12TwccAttrKey re-exports cc.TwccExtensionAttributesKey.
+const C12TwccAttrKey = cc.TwccExtensionAttributesKey
+
+// C12RTPBuffer drives an rtpbuffer.RTPBuffer with copies made by the real packet factory.
+type C12RTPBuffer struct {
+	b *rtpbuffer.RTPBuffer
+	f *rtpbuffer.PacketFactoryCopy
+}
+
+// C12NewRTPBuffer constructs the ring.
+func C12NewRTPBuffer(size uint16) (*C12RTPBuffer, error) {
+	b, err := rtpbuffer.NewRTPBuffer(size)
+	if err != nil {
+		return nil, err
+	}
+
+	return &C12RTPBuffer{b: b, f: rtpbuffer.NewPacketFactoryCopy()}, nil
+}
+
+// Add stores a packet with the given sequence number.
+func (r *C12RTPBuffer) Add(seq uint16) error {
+	p, err := r.f.NewPacket(&rtp.Header{Version: 2, SequenceNumber: seq, SSRC: 1}, []byte{1, 2, 3, 4}, 0, 0)
+	if err != nil {
+		return err
+	}
+	r.b.Add(p)
+
+	return nil
+}
+
+// Sizes returns (slots, occupied slots).
+func (r *C12RTPBuffer) Sizes() (int, int) { return r.b.C12Sizes() }
